@@ -19,7 +19,8 @@
                    `code >= 300 || err` early return that passes a buffered response on
                    unless code >= 400; http.ServeContent with the buffered status)
                                                                      templates/templates.go
-       innermost handler = script over {Header().Set, WriteHeader, Write, Flush, panic}
+       innermost handler = script over {Header().Set, WriteHeader, Write, Flush,
+                           io.Copy / ReadFrom (the io.ReaderFrom entry point), panic(v)}
                            followed by `return status, err`.
 
    net/http's own ResponseWriter is the [conn] part: the header map is snapshotted by the first
@@ -318,8 +319,27 @@ Definition b_fl (x : st) : out :=
         (fun x1 => if b_stream x1 then h_fl x1 else Done x1)
   else h_fl x.
 
+(* The io.ReaderFrom entry point: what `io.Copy(w, src)` / `io.CopyN` / `w.(io.ReaderFrom).ReadFrom(src)`
+   do when src is a plain io.Reader holding [b].  Of the writers of the stack only templates'
+   ResponseBuffer (and net/http's own response) offers ReadFrom; on every other writer io.Copy
+   falls back to Write, and writes nothing when the source is empty.
+   ResponseBuffer.ReadFrom: `if !rb.wroteHeader { rb.WriteHeader(200) }` FIRST - that call is what
+   makes the buffer decide whether to buffer -, then, streaming: io.CopyBuffer to the writer
+   below (Writes, none for an empty source); buffering: rb.Buffer.ReadFrom(src).
+   For a non-empty source this is exactly ResponseBuffer.Write. *)
+Definition b_rf (b : bytes) (x : st) : out :=
+  match b with
+  | [] => if b_active x then (if b_wrote x then Done x else b_wh 200 x) else Done x
+  | _ :: _ => b_wr b x
+  end.
+
 (* ---------- the innermost handler ---------- *)
-Inductive op := OSet (k v : bytes) | OWh (s : Z) | OWr (b : bytes) | OFl | OPanic.
+(* the value a handler panics with: no recover site of the response path (errors' recovery,
+   log's serveNext, the top of Server.ServeHTTP) looks at it - in particular http.ErrAbortHandler
+   is answered like any other value -, and a Go >= 1.21 module never recovers nil (panic(nil)
+   arrives as *runtime.PanicNilError) *)
+Inductive pval := PString | PError | PRuntime | PAbort | PNilDeref | PCustom | PNil.
+Inductive op := OSet (k v : bytes) | OWh (s : Z) | OWr (b : bytes) | OFl | OPanic (v : pval) | ORf (b : bytes).
 
 Definition step (o : op) (x : st) : out :=
   match o with
@@ -327,7 +347,8 @@ Definition step (o : op) (x : st) : out :=
   | OWh s => b_wh s x
   | OWr b => b_wr b x
   | OFl => b_fl x
-  | OPanic => Pan x
+  | OPanic _ => Pan x
+  | ORf b => b_rf b x
   end.
 Fixpoint run_script (ops : list op) (x : st) : out :=
   match ops with
@@ -632,7 +653,8 @@ Record obs := {
   o_status : Z; o_garbled : bool; o_view : bytes; o_sup : nat;
   o_xprobe : option bytes; o_xcfg : bool; o_xdel : bool;
   o_mime : bool;      (* Content-Type is the one the mime directive configures *)
-  o_loc : bool        (* Location: /there *)
+  o_loc : bool;       (* Location: /there *)
+  o_etag : bool       (* an ETag field is present (gzip weakens it, templates removes it from what it renders) *)
 }.
 Definition is_val (o : option bytes) (v : bytes) : bool := match o with Some w => beq w v | None => false end.
 Definition observe (x : st) : obs :=
@@ -644,7 +666,8 @@ Definition observe (x : st) : obs :=
      o_xdel := match hget (csnap x) K_XDEL with Some _ => true | None => false end;
      (* net/http does not send Content-Type with a 304 *)
      o_mime := match cm x with Some 304 => false | _ => is_val (hget (csnap x) K_CT) V_MIME end;
-     o_loc := is_val (hget (csnap x) K_LOC) V_THERE |}.
+     o_loc := is_val (hget (csnap x) K_LOC) V_THERE;
+     o_etag := match hget (csnap x) K_ETAG with Some _ => true | None => false end |}.
 
 Definition opt_beq (a b : option bytes) : bool :=
   match a, b with Some x, Some y => beq x y | None, None => true | _, _ => false end.
@@ -652,7 +675,7 @@ Definition obs_eqb (a b : obs) : bool :=
   (o_status a =? o_status b) && Bool.eqb (o_garbled a) (o_garbled b) && beq (o_view a) (o_view b) &&
   Nat.eqb (o_sup a) (o_sup b) && opt_beq (o_xprobe a) (o_xprobe b) &&
   Bool.eqb (o_xcfg a) (o_xcfg b) && Bool.eqb (o_xdel a) (o_xdel b) &&
-  Bool.eqb (o_mime a) (o_mime b) && Bool.eqb (o_loc a) (o_loc b).
+  Bool.eqb (o_mime a) (o_mime b) && Bool.eqb (o_loc a) (o_loc b) && Bool.eqb (o_etag a) (o_etag b).
 
 (* ---------- DefaultErrorFunc's text: "%d %s\n" with net/http's StatusText ---------- *)
 Definition status_text (code : Z) : bytes :=
@@ -744,19 +767,24 @@ Definition p_step (p : plain) (o : op) : plain :=
              let keep := match p_cm q with Some s => negb (bodyless s) | None => true end in
              {| p_cm := p_cm q; p_hdr := p_hdr q; p_snap := p_snap q; p_body := if keep then p_body q ++ b else p_body q; p_sup := p_sup q; p_pan := false |}
   | OFl => p_commit 200 p
-  | OPanic => {| p_cm := p_cm p; p_hdr := p_hdr p; p_snap := p_snap p; p_body := p_body p; p_sup := p_sup p; p_pan := true |}
+  | OPanic _ => {| p_cm := p_cm p; p_hdr := p_hdr p; p_snap := p_snap p; p_body := p_body p; p_sup := p_sup p; p_pan := true |}
+  (* io.Copy on a bare net/http writer: nothing at all for an empty source, else Writes *)
+  | ORf [] => p
+  | ORf b => let q := p_commit 200 p in
+             let keep := match p_cm q with Some s => negb (bodyless s) | None => true end in
+             {| p_cm := p_cm q; p_hdr := p_hdr q; p_snap := p_snap q; p_body := if keep then p_body q ++ b else p_body q; p_sup := p_sup q; p_pan := false |}
   end.
 Definition run_plain (ops : list op) : plain := fold_left p_step ops p0.
 (* the handler touched the response before returning / panicking *)
-Definition is_write_op (o : op) : bool := match o with OWh _ | OWr _ | OFl => true | _ => false end.
+Definition is_write_op (o : op) : bool := match o with OWh _ | OWr _ | OFl | ORf (_ :: _) => true | _ => false end.
 Fixpoint touched (ops : list op) : bool :=
   match ops with
   | [] => false
-  | OPanic :: _ => false
+  | OPanic _ :: _ => false
   | o :: r => is_write_op o || touched r
   end.
 Fixpoint panics (ops : list op) : bool :=
-  match ops with [] => false | OPanic :: _ => true | _ :: r => panics r end.
+  match ops with [] => false | OPanic _ :: _ => true | _ :: r => panics r end.
 
 (* ---------- the handler contract (httpserver/middleware.go, net/http) ----------
    WriteHeader is called at most once, before anything else is written or flushed, with a
@@ -769,7 +797,11 @@ Fixpoint wh_first (committed : bool) (ops : list op) : bool :=
   | OWh s :: r => negb committed && (200 <=? s) && (s <=? 999) && wh_first true r
   | OWr _ :: r => wh_first true r
   | OFl :: r => wh_first true r
-  | OPanic :: _ => true
+  | OPanic _ :: _ => true
+  (* a copy writes; copying an empty source is not something the contract covers: on templates'
+     ResponseBuffer it commits the header although nothing is written (C12_empty_copy_refuted) *)
+  | ORf [] :: _ => false
+  | ORf (_ :: _) :: r => wh_first true r
   end.
 Definition handler_contract (ops : list op) (ret : Z) : bool :=
   wh_first false ops && (if touched ops then ret <? 400 else ret <=? 999).
@@ -847,10 +879,22 @@ Definition spec (errtext : Z -> bytes) (c : cfg) (path : bytes) (ops : list op) 
         (* written response arrives unaltered; wrappers add no header commit *)
         negb (o_garbled o) && Nat.leb (o_sup o) (p_sup p) &&
         (if handler_contract ops ret then Nat.eqb (o_sup o) 0 else true) &&
-        (if contains (p_body p) TPL_OPEN && c_templates c then true   (* a template: it is executed *)
+        (* templates takes the response as a template only if the request / the response header
+           the handler committed match its rule, the handler returned a status below 300 and no error *)
+        let rendered := should_buffer (tmode_of c path) (p_snap p) && (ret <? 300) && negb err in
+        (if rendered && contains (p_body p) TPL_OPEN then
+           (* a template that fails (to parse, or at execution): templates reports (500, err)
+              without writing, so the client receives 500 once with the COMPLETE error body
+              ([resp_ok] above: reading the body to its announced length succeeded) and none of
+              the validators of the page that was not served *)
+           (o_status o =? 500) && Nat.eqb (o_sup o) 0 && negb (o_etag o) &&
+           beq (o_view o) (error_body_table errtext c path 500 true)
          else (o_status o =? match p_cm p with Some s => s | None => 200 end) &&
               opt_beq (o_xprobe o) (hget (p_snap p) K_XPROBE) &&
               beq (o_view o) (p_body p) &&
+              (* the handler's validator reaches the client (templates removes it from a page it renders) *)
+              (if rendered then true
+               else Bool.eqb (o_etag o) (match hget (p_snap p) K_ETAG with Some _ => true | None => false end)) &&
               (* mime's Content-Type stays unless the handler sets its own *)
               Bool.eqb (o_mime o) (match mime_ct c path with
                                    | Some _ => negb (sets_ct ops) && negb (o_status o =? 304)
